@@ -231,3 +231,32 @@ pub fn layout_cfg(cfg: &Cfg, cu: &mut Customs) -> String {
     }
     out
 }
+
+/// Dump for the kanata-level model: the layout configuration followed by kanata-level settings.
+pub fn kanata_cfg(k: &kanata_state_machine::Kanata, cu: &mut Customs) -> String {
+    let mut out = String::new();
+    let l: &'static BorrowedKLayout<'static> = unsafe { std::mem::transmute(k.layout.b()) };
+    out.push_str(&layout_of(l, cu));
+    out
+}
+
+pub fn layout_of(l: &'static BorrowedKLayout<'static>, cu: &mut Customs) -> String {
+    let mut out = String::new();
+    writeln!(
+        out,
+        "LCFG {} {} {} {} {} {}",
+        l.verif_trans_settings().0 as u8,
+        l.verif_trans_settings().1 as u8,
+        l.quick_tap_hold_timeout as u8,
+        l.oneshot.pause_input_processing_delay,
+        l.layers.len(),
+        l.chords_v2.is_some() as u8,
+    )
+    .unwrap();
+    row(&mut out, &l.src_keys[..], cu);
+    for layer in l.layers.iter() {
+        row(&mut out, &layer[0][..], cu);
+        row(&mut out, &layer[1][..], cu);
+    }
+    out
+}
